@@ -75,6 +75,9 @@ pub struct Case {
     pub local_shutdown: Option<usize>,
     /// the peer's GOAWAY frame arrives in two pieces (frame header, pause, payload)
     pub goaway_split: bool,
+    /// a control frame the server has nothing to do for (MAX_PUSH_ID = 0xd, CANCEL_PUSH = 0x3; 0 = none) written
+    /// directly in front of the GOAWAY, in the same write: the GOAWAY is already buffered when that frame is read
+    pub goaway_behind: u64,
 }
 
 #[derive(Debug, Clone, Default, PartialEq, Eq)]
@@ -227,7 +230,12 @@ pub fn execute(case: &Case, seed: u64) -> Outcome {
             for i in 0..=case.ends.len() {
                 if i == case.goaway_at {
                     for id in &case.goaway_ids {
-                        let fr = rf::frame(rf::GOAWAY, &refimpl::varint::encode(*id).unwrap());
+                        let mut fr = rf::frame(rf::GOAWAY, &refimpl::varint::encode(*id).unwrap());
+                        if case.goaway_behind != 0 {
+                            let mut b = rf::frame(case.goaway_behind, &[if case.goaway_behind == rf::MAX_PUSH_ID { 1 } else { 0 }]);
+                            b.extend(fr);
+                            fr = b;
+                        }
                         if case.goaway_split {
                             net.raw_write(CLIENT, CLIENT_CTRL, &fr[..2]);
                             for _ in 0..4 {
@@ -390,7 +398,7 @@ pub fn burst_run(n: usize) -> (Vec<String>, bool, usize, Vec<(String, String)>) 
 }
 
 pub fn judge(case: &Case, o: &Outcome) -> Vec<(String, String)> {
-    let ctx = format!("requests (by stream id / 4) ending {:?}, arriving in {} id order, peer GOAWAY{} before arrival #{}{}{}", case.ends, if case.reversed { "descending" } else { "ascending" }, if case.goaway_ids != [0] { format!(" (identifiers {:?}){}", case.goaway_ids, if case.grease_starved { ", grease stream starved" } else { "" }) } else if case.grease_starved { " (grease stream starved)".to_string() } else { String::new() }, case.goaway_at, if let Some(n) = case.local_shutdown { format!(", after the server's own shutdown({n})") } else { String::new() }, if case.goaway_split { ", GOAWAY frame in two pieces" } else { "" });
+    let ctx = format!("requests (by stream id / 4) ending {:?}, arriving in {} id order, peer GOAWAY{} before arrival #{}{}{}", case.ends, if case.reversed { "descending" } else { "ascending" }, if case.goaway_ids != [0] { format!(" (identifiers {:?}){}", case.goaway_ids, if case.grease_starved { ", grease stream starved" } else { "" }) } else if case.grease_starved { " (grease stream starved)".to_string() } else { String::new() }, case.goaway_at, if let Some(n) = case.local_shutdown { format!(", after the server's own shutdown({n})") } else { String::new() }, if case.goaway_split { ", GOAWAY frame in two pieces" } else if case.goaway_behind != 0 { ", GOAWAY in the same write behind a MAX_PUSH_ID / CANCEL_PUSH frame" } else { "" });
     let mut out = Vec::new();
     for (t, p) in &o.panics {
         out.push((format!("C09:panic@{}", explore::panics::short_loc(p)), format!("{ctx}: task {t} panicked: {p}")));
@@ -437,7 +445,7 @@ pub fn run(args: &Args) -> i32 {
     let mut rep = Report::new("C09", args.tier, args.seed, "model_checking");
     rep.exhaustive = true;
     rep.rule = format!(
-        "0..{n} requests, each ending in one of {{normal finish, resolver dropped before resolve_request, FIN before HEADERS, RESET before HEADERS, RESET after HEADERS, RESET after half of the HEADERS frame / half of a DATA frame has been read, malformed headers, oversized headers, split into halves dropped send-first / recv-first, handler still running, response finished but the handle kept, split with the send half finished and dropped and the receive half kept}} (all {}^k assignments), the peer's GOAWAY injected before each request and after the last, requests arriving in ascending and in descending stream-ID order, the peer's GOAWAY carrying identifier 0, 0 twice, 3, 2^62-1, or 2^62-1 followed by 1 (client to server these are push ids; any value is legal), histories of <= 2 requests also after the server's own shutdown(3), with the GOAWAY frame arriving in two pieces (header, pause, payload), and with grease enabled and its unidirectional stream never granted by the peer, every execution with <= {bound} scheduling deviations among the accept loop, the handler tasks and the script. Oracle at quiescence: GOAWAY delivered and every handed-out request ended => accept() has returned Ok(None); accept() never returns Ok(None) while a handler still holds a request handle. states = distinct (transport, progress) fingerprints; non-trivial = cases with at least one request.",
+        "0..{n} requests, each ending in one of {{normal finish, resolver dropped before resolve_request, FIN before HEADERS, RESET before HEADERS, RESET after HEADERS, RESET after half of the HEADERS frame / half of a DATA frame has been read, malformed headers, oversized headers, split into halves dropped send-first / recv-first, handler still running, response finished but the handle kept, split with the send half finished and dropped and the receive half kept}} (all {}^k assignments), the peer's GOAWAY injected before each request and after the last, requests arriving in ascending and in descending stream-ID order, the peer's GOAWAY carrying identifier 0, 0 twice, 3, 2^62-1, or 2^62-1 followed by 1 (client to server these are push ids; any value is legal), histories of <= 2 requests also after the server's own shutdown(3), with the GOAWAY frame arriving in two pieces (header, pause, payload), with the GOAWAY written in one piece behind a MAX_PUSH_ID or a CANCEL_PUSH frame (frames a server has nothing to do for), and with grease enabled and its unidirectional stream never granted by the peer, every execution with <= {bound} scheduling deviations among the accept loop, the handler tasks and the script. Oracle at quiescence: GOAWAY delivered and every handed-out request ended => accept() has returned Ok(None); accept() never returns Ok(None) while a handler still holds a request handle. states = distinct (transport, progress) fingerprints; non-trivial = cases with at least one request.",
         ENDS.len()
     );
     rep.assumptions = vec!["liveness is decided at quiescence of the closed world (no timers, nothing in flight), where 'still pending' means 'pending forever'".into()];
@@ -459,17 +467,20 @@ pub fn run(args: &Args) -> i32 {
     }
     for c in combos {
         for g in 0..=c.len() {
-            cases.push(Case { ends: c.clone(), goaway_at: g, reversed: false, goaway_ids: vec![0], grease_starved: false, local_shutdown: None, goaway_split: false });
+            cases.push(Case { ends: c.clone(), goaway_at: g, reversed: false, goaway_ids: vec![0], grease_starved: false, local_shutdown: None, goaway_split: false, goaway_behind: 0 });
             if c.len() >= 2 {
-                cases.push(Case { ends: c.clone(), goaway_at: g, reversed: true, goaway_ids: vec![0], grease_starved: false, local_shutdown: None, goaway_split: false });
+                cases.push(Case { ends: c.clone(), goaway_at: g, reversed: true, goaway_ids: vec![0], grease_starved: false, local_shutdown: None, goaway_split: false, goaway_behind: 0 });
             }
             if c.len() <= 2 {
                 // the server's own shutdown(n) (n large enough to keep serving these requests) before the peer's GOAWAY
-                cases.push(Case { ends: c.clone(), goaway_at: g, reversed: false, goaway_ids: vec![0], grease_starved: false, local_shutdown: Some(3), goaway_split: false });
-                cases.push(Case { ends: c.clone(), goaway_at: g, reversed: false, goaway_ids: vec![0], grease_starved: false, local_shutdown: None, goaway_split: true });
-                cases.push(Case { ends: c.clone(), goaway_at: g, reversed: false, goaway_ids: vec![0], grease_starved: true, local_shutdown: None, goaway_split: false });
+                cases.push(Case { ends: c.clone(), goaway_at: g, reversed: false, goaway_ids: vec![0], grease_starved: false, local_shutdown: Some(3), goaway_split: false, goaway_behind: 0 });
+                cases.push(Case { ends: c.clone(), goaway_at: g, reversed: false, goaway_ids: vec![0], grease_starved: false, local_shutdown: None, goaway_split: true, goaway_behind: 0 });
+                for behind in [rf::MAX_PUSH_ID, rf::CANCEL_PUSH] {
+                    cases.push(Case { ends: c.clone(), goaway_at: g, reversed: false, goaway_ids: vec![0], grease_starved: false, local_shutdown: None, goaway_split: false, goaway_behind: behind });
+                }
+                cases.push(Case { ends: c.clone(), goaway_at: g, reversed: false, goaway_ids: vec![0], grease_starved: true, local_shutdown: None, goaway_split: false, goaway_behind: 0 });
                 for ids in [vec![0, 0], vec![3], vec![(1 << 62) - 1], vec![(1 << 62) - 1, 1]] {
-                    cases.push(Case { ends: c.clone(), goaway_at: g, reversed: false, goaway_ids: ids, grease_starved: false, local_shutdown: None, goaway_split: false });
+                    cases.push(Case { ends: c.clone(), goaway_at: g, reversed: false, goaway_ids: ids, grease_starved: false, local_shutdown: None, goaway_split: false, goaway_behind: 0 });
                 }
             }
         }
@@ -503,7 +514,7 @@ pub fn run(args: &Args) -> i32 {
         if !case.ends.is_empty() {
             acc.nontrivial.insert(explore::fnv_str(&format!("{case:?}")));
         }
-        viol.drain_into(acc, |choices| json!({"ends": case.ends.iter().map(|e| format!("{e:?}")).collect::<Vec<_>>(), "goaway_at": case.goaway_at, "reversed": case.reversed, "goaway_ids": case.goaway_ids, "grease_starved": case.grease_starved, "local_shutdown": case.local_shutdown, "goaway_split": case.goaway_split, "choices": choices, "seed": seed}));
+        viol.drain_into(acc, |choices| json!({"ends": case.ends.iter().map(|e| format!("{e:?}")).collect::<Vec<_>>(), "goaway_at": case.goaway_at, "reversed": case.reversed, "goaway_ids": case.goaway_ids, "grease_starved": case.grease_starved, "local_shutdown": case.local_shutdown, "goaway_split": case.goaway_split, "goaway_behind": case.goaway_behind, "choices": choices, "seed": seed}));
     });
     let mut total = Acc::new();
     for a in accs {
@@ -550,6 +561,7 @@ pub fn replay(r: &Value) -> i32 {
         grease_starved: r["grease_starved"].as_bool().unwrap_or(false),
         local_shutdown: r["local_shutdown"].as_u64().map(|v| v as usize),
         goaway_split: r["goaway_split"].as_bool().unwrap_or(false),
+        goaway_behind: r["goaway_behind"].as_u64().unwrap_or(0),
         goaway_ids: match r["goaway_ids"].as_array() {
             Some(a) => a.iter().map(|v| v.as_u64().unwrap()).collect(),
             None => if r["goaway_twice"].as_bool().unwrap_or(false) { vec![0, 0] } else { vec![0] },
